@@ -1,16 +1,46 @@
-//! ad-hoc probe: print panic sites for truncated / mutated files (development aid)
-use crate::panicx::catch;
-use keepass::{Database, DatabaseKey};
-pub fn run() {
-    let data = std::fs::read("/repo/tests/resources/test_db_kdbx4_with_password_aes.kdbx").unwrap();
-    let mut seen = std::collections::BTreeMap::new();
-    for n in 0..data.len() {
-        let r = catch(|| Database::parse(&data[..n], DatabaseKey::new().with_password("demopass")));
-        if let Err(p) = r {
-            *seen.entry(format!("{} | {} | {}:{}", p.site(), p.message.chars().take(60).collect::<String>(), p.file, p.line)).or_insert(0) += 1;
+//! ad-hoc probes (development aid): behaviour of the xml-rs writer -> reader pipeline on single characters
+use xml::reader::{EventReader, XmlEvent};
+use xml::writer::{EmitterConfig, XmlEvent as W};
+
+pub fn roundtrip_text(s: &str) -> String {
+    let mut buf = Vec::new();
+    {
+        let mut w = EmitterConfig::new().perform_indent(false).create_writer(&mut buf);
+        if let Err(e) = w.write(W::start_element("A")) { return format!("werr:{}", e); }
+        if let Err(e) = w.write(W::characters(s)) { return format!("werr:{}", e); }
+        if let Err(e) = w.write(W::end_element()) { return format!("werr:{}", e); }
+    }
+    let mut out = Vec::new();
+    for ev in EventReader::new(&buf[..]) {
+        match ev {
+            Ok(XmlEvent::Characters(c)) => out.push(format!("C{:?}", c)),
+            Ok(XmlEvent::Whitespace(c)) => out.push(format!("W{:?}", c)),
+            Ok(XmlEvent::CData(c)) => out.push(format!("D{:?}", c)),
+            Ok(XmlEvent::StartElement { .. }) | Ok(XmlEvent::EndElement { .. }) | Ok(XmlEvent::StartDocument { .. }) | Ok(XmlEvent::EndDocument) => {}
+            Ok(e) => out.push(format!("?{:?}", e)),
+            Err(_) => { out.push("ERR".into()); break; }
         }
     }
-    for (k, v) in seen {
-        println!("{} x{}", k, v);
+    out.join("|")
+}
+
+pub fn run() {
+    let mut classes: std::collections::BTreeMap<String, Vec<u32>> = std::collections::BTreeMap::new();
+    let mut cps: Vec<u32> = (0..0x300).collect();
+    cps.extend([0x2028, 0x2029, 0xD7FF, 0xE000, 0xFFFD, 0xFFFE, 0xFFFF, 0x10000, 0x10FFFF, 0x1FFFE]);
+    for cp in cps {
+        if let Some(c) = char::from_u32(cp) {
+            let s = format!("a{}b", c);
+            let r = roundtrip_text(&s);
+            let cls = if r == format!("C{:?}", s) { "same".to_string() } else if r.contains("ERR") { "ERR".to_string() } else { format!("other:{}", r) };
+            classes.entry(cls).or_default().push(cp);
+        }
+    }
+    for (k, v) in &classes {
+        let show: Vec<String> = v.iter().take(40).map(|x| format!("{:x}", x)).collect();
+        println!("{} ({}): {}", k, v.len(), show.join(","));
+    }
+    for s in ["", " ", "\t\n", " a ", "a\r\nb", "\r", "]]>", "a&b<c>d\"e'f", "\u{feff}x", "x\u{feff}"] {
+        println!("{:?} -> {}", s, roundtrip_text(s));
     }
 }
